@@ -168,6 +168,23 @@ func run(c *hc.Ctx) {
 		}
 	}
 
+	// 1c. second wave: the sweep-line data structures against their Lean models (structs.go,
+	//     heap.go, cmp.go): SweepStatus AVL tree, mergeOverlapping, SweepEvents heap, comparators.
+	//     They run before the region refinement (a broken data structure makes the sweep hang) on
+	//     their own PRNG stream, so the inputs of the region cases below are unchanged.
+	failsBefore := len(c.Fails)
+	c.WithStream("c01-structs", func() {
+		runStructs(c)
+		runHeap(c)
+		runCmp(c)
+	})
+	if len(c.Fails) > failsBefore {
+		// a sweep running on a broken status tree / event queue / comparator need not terminate:
+		// the failures above already decide the check
+		c.Count("region-refinement-skipped(data-structure oracle failed)")
+		return
+	}
+
 	// 2. region refinement: real And/Or/Not/Xor/DivideBy judged by the exact Lean specification
 	for it := 0; it < c.N; it++ {
 		var pool []hc.P2
